@@ -802,6 +802,8 @@ val inline_max_objects : n
 
 val max_eol_units : n
 
+val max_rune_units : n
+
 type expr =
 | EStr of n list
 | EAny
